@@ -639,8 +639,18 @@ def gen_resp(rng: random.Random, sid: str, focus: str, thorough: bool = False) -
             continue
         if r < p_unreg and [x for x in live if busy[x['sid']] <= t]:
             sp = rng.choice([x for x in live if busy[x['sid']] <= t])
+            if focus in ('c08', 'c03') and rng.random() < 0.4:
+                # an address (or type enumeration) answer parked by the one-second rule when the service goes: asked, answered at
+                # once, asked again within the second, then unregistered before the parked answer is due
+                qname, qtype = rng.choice([(sp['host'], wire.T_A), (sp['host'], wire.T_AAAA), (ENUM, wire.T_PTR), (sp['type'], wire.T_PTR)])
+                for dt in (0, rng.choice([150, 400, 700])):
+                    t += dt
+                    steps += [{'op': 'at', 't': t}, {'op': 'query', 'qs': [{'name': qname, 'type': qtype, 'sp': 0, 'qu': False}],
+                                                    'qid': rng.randint(1, 65535), 'src': '10.0.0.23'}]
+                t += rng.choice([50, 200, 500])
+                steps.append({'op': 'at', 't': t})
             live.remove(sp)
-            busy[sp['sid']] = t + 300
+            busy[sp['sid']] = max(busy[sp['sid']], t + 300)
             steps.append({'op': 'unreg', 'sid': sp['sid']})
             continue
         if r < p_unreg + 0.06 and [x for x in live if busy[x['sid']] <= t]:
